@@ -4,4 +4,4 @@ From Trie Require Import Nibbles Node Encode Model Spec.
 From C10 Require Import Model.
 Extraction "model.ml" drv_b2n drv_n2b drv_z_of_n drv_n_of_z drv_nat_of_n drv_n_of_nat
   host_root host_ordered_root spec_host_root spec_host_ordered_root parse_version dec_entries dec_values guard_entries_overrun guard_values_overrun
-  blake2b_256.
+  blake2b_256 dec_len dec_len_go dec_entries_go dec_values_go.
